@@ -142,7 +142,8 @@ def generate(rng: random.Random, tier: str) -> dict:
         post_lat = rng.choice([1, 1, 30, 300])  # a slow acknowledgement lets the event overtake the 202
     for k, e in enumerate(events):
         e["m"] = f"mk{k}"
-    return {"v": 1, "abandoned": abandoned, "reuse_id": reuse, "post_lat": post_lat, "uuid_seed": rng.getrandbits(40), "mode": rng.choice(["parse_message", "model_validate"]),
+    sibling = {"at": rng.choice([0, 1, 300, 1300])} if (regime == "per_request_streams" and rng.random() < 0.3) else None
+    return {"v": 1, "sibling": sibling, "abandoned": abandoned, "reuse_id": reuse, "post_lat": post_lat, "uuid_seed": rng.getrandbits(40), "mode": rng.choice(["parse_message", "model_validate"]),
             "carrier": carrier, "regime": regime, "coalesce": rng.random() < 0.6,
             "callers": callers, "events": events}
 
@@ -223,6 +224,16 @@ def execute(scn: dict) -> dict:
                     await stack.enter_async_context(client)
                     r, w = client.get_streams()
                     st["_client"] = client
+                    if scn.get("sibling"):
+                        # another connection of the same process (a host talking to a second server) whose callers use the same request ids
+                        client2 = stdio.StdioClient(StdioParameters(command="sim-child-2", args=[]))
+                        await stack.enter_async_context(client2)
+
+                        def sibling_registers():
+                            for c_ in callers:
+                                client2.new_request_stream(str(c_["mid"]))
+                            sim.fault("second_connection_registered_the_same_ids")
+                        sim.at(sim.now() + ticks(scn["sibling"]["at"]), sibling_registers, tie=2)
                     for q in range(scn.get("abandoned", 0)):
                         # requests of the past that were never answered: their callers timed out and nobody unregistered the streams
                         client.new_request_stream(f"gone-{q}")
